@@ -409,7 +409,11 @@ func (o *Object) rawWrite(off, n int, v *Term) {
 
 func (o *Object) addr(s *State) *Term {
 	if o.Addr == nil {
-		o.Addr = Var(fmt.Sprintf("addr%d", o.ID), 64)
+		if o.HavocName != "" {
+			o.Addr = Var(o.HavocName+".addr", 64) // named, so that the native replay can reproduce the alignment
+		} else {
+			o.Addr = Var(fmt.Sprintf("addr%d", o.ID), 64)
+		}
 		s.noteVar(o.Addr)
 		// objects live in the lower half of the address space, away from 0
 		s.assume(Ult(Const(64, 4096), o.Addr))
